@@ -301,6 +301,22 @@ package querylog
 //@ sweep C05 fieldcall:github.com/AdguardTeam/AdGuardHome/internal/querylog.Config.ConfigModified
 
 // ---- C08: a name on the ignore list, or a client flagged to be ignored, is never logged ----
+// The API does not return an entry whose name or client is ignored *now* - whether the entry sits in a file or still in
+// memory (the memory scan is the closure handed to the ring buffer's ReverseRange).
+//@ func (e *logEntry) shallowClone() (clone *logEntry)
+//@   property C08
+//@   ensures clone != nil && fresh(clone) && clone.QHost == e.QHost && clone.ClientID == e.ClientID && clone.IP == e.IP
+//@   modifies nothing
+//@ func (s *searchParams) match(entry *logEntry) (r0 bool)
+//@   trusted
+//@   modifies nothing
+//@ func (l *queryLog) searchMemory$1(entry *logEntry) (cont bool)
+//@   property C08
+//@   requires entry != nil && cache != nil && cacheSound(cache) && l.conf != nil
+//@   ensures currently-ignored-name-not-returned: len(entries) > old(len(entries)) ==> !l.conf.Ignored.Has(entry.QHost)
+//@   ensures currently-ignored-client-not-returned: len(entries) > old(len(entries)) ==> entries[len(entries) - 1].client == nil || !entries[len(entries) - 1].client.IgnoreQueryLog
+//@   modifies *
+
 // qlOK: the verdict of the most recent ShouldLog asked through the interface (what the DNS server sees).
 //@ ghost var qlOK bool
 //@ func (l QueryLog) ShouldLog(host string, qt uint16, cl uint16, ids []string) (r0 bool)
